@@ -67,6 +67,25 @@ Check (C11_open_answered_refuted :
 Check (C11_open_answered_class3_refuted :
   exists (c : cfg) (ops : list op) (s : st) (owed : peer -> bool),
     ledger c init (fun _ => false) ops = Some (s, owed) /\ owed 0 = true /\ in_progress (ps s 0) = false).
+Check (C11_send_gate :
+  forall (c : cfg) (s : st) (o : op) (s' : st) (ev : list uev) (cl : list call) (q : peer) (k m : N),
+    reachable c s -> step c s o = Some (s', ev, cl) -> In (CWire q k m) cl ->
+    send_sink s o = Some (q, k, m) /\ running s k = true /\
+    (exists t, find_task k (tasks s) = Some t /\ t_peer t = q) /\
+    match o with
+    | SendSync _ _ | SendAsync _ _ => hopen s q = true /\ hsink s q = Some k
+    | _ => usink s q = Some k
+    end).
+Check (C11_send_gate_closed :
+  forall (c : cfg) (s : st) (p : peer) (m : N) (a : bool) (s' : st) (ev : list uev) (cl : list call),
+    reachable c s -> hopen s p = false ->
+    step c s (if a then SendAsync p m else SendSync p m) = Some (s', ev, cl) ->
+    cl = [CRet p (if a then R_NOPEER else R_OK)] /\ ev = [] /\ ps s' = ps s /\ tasks s' = tasks s).
+Check (C11_stale_sink_errors :
+  forall (c : cfg) (s : st) (p : peer) (k m : N) (a : bool) (s' : st) (ev : list uev) (cl : list call),
+    usink s p = Some k -> find_task k (tasks s) = None ->
+    step c s (if a then SinkAsync p m else SinkSync p m) = Some (s', ev, cl) ->
+    cl = [CRet p (if a then R_NOPEER else R_NOCONN)] /\ ev = [] /\ ps s' = ps s /\ tasks s' = tasks s).
 Check (C11_timers_fire_once :
   forall (c : cfg) (s : st) (o : op) (s' : st) (ev : list uev) (cl : list call),
     step c s o = Some (s', ev, cl) -> timers_spec s o s').
